@@ -1080,10 +1080,14 @@ void mon_poison_last_error(struct mon_rng *r) {
     static const int codes[] = {AWS_ERROR_INVALID_INDEX, AWS_ERROR_OOM, AWS_ERROR_LIST_EMPTY, AWS_ERROR_LIST_EXCEEDS_MAX_SIZE, AWS_ERROR_PRIORITY_QUEUE_EMPTY,
                                 AWS_ERROR_PRIORITY_QUEUE_BAD_NODE, AWS_ERROR_HASHTBL_ITEM_NOT_FOUND, AWS_ERROR_SHORT_BUFFER, AWS_ERROR_OVERFLOW_DETECTED,
                                 AWS_ERROR_INVALID_ARGUMENT, AWS_ERROR_DEST_COPY_TOO_SMALL, AWS_ERROR_INVALID_STATE, AWS_ERROR_UNSUPPORTED_OPERATION};
-    uint64_t k = mon_below(r, sizeof(codes) / sizeof(codes[0]) + 3);
+    /* half of the calls clear the slot instead: oracles of the kind "a failing call must raise SOME error" stay effective */
+    uint64_t k = mon_below(r, 2 * (sizeof(codes) / sizeof(codes[0])));
     if (k >= sizeof(codes) / sizeof(codes[0])) {
         aws_reset_error();
     } else {
         aws_raise_error(codes[k]);
     }
+    /* the C library's errno as well: a call that succeeds must not interpret what an unrelated earlier call left there */
+    static const int errnos[] = {0, 0, ERANGE, EINVAL, EAGAIN, ENOMEM, EDOM, EINTR};
+    errno = errnos[mon_below(r, sizeof(errnos) / sizeof(errnos[0]))];
 }
